@@ -90,10 +90,15 @@ def r1(ctx):
                 ctx.ok(key, "unlocked by contract: " + OVERFLOW_UNLOCKED_OK[owner], nontrivial=False)
                 continue
             how = _write_protected(ctx, ix.func(owner), st, 2)
+            if how is not None and len(how) > 1:
+                # a write extracted into a private helper: one obligation per place the helper is called from
+                for j, h in enumerate(how):
+                    ctx.ok(f"{key}@call#{j}", h)
+                continue
             ctx.check(how is not None, key,
                       f"`{unparse(st)}` changes the overflow counter outside `with self._overflow_lock` "
                       f"while a limit is enforced (lost update / limit overrun under concurrency)",
-                      how or "", loc)
+                      (how or [""])[0], loc)
     # check-then-act atomicity in _inc_overflow.  Every increment that can run while a limit is
     # enforced must be dominated (on the CFG: nested `if`, early return, either style) by a branch
     # outcome that establishes `_overflow < _max_overflow`, and that test must be evaluated inside the
@@ -175,7 +180,8 @@ def r1(ctx):
 def _write_protected(ctx, f0, node, depth):
     """Why the statement / call `node` of function f0 cannot race on the overflow counter: it sits in a
     `with self._overflow_lock` region, or is dominated by `_max_overflow == -1` (no limit to keep), or f0 is a
-    private helper every call of which (from QueuePool itself) is so protected.  None = unprotected."""
+    private helper every call of which (from QueuePool itself) is so protected.  Answers the list of reasons (one
+    per protected place: the write itself, or each call site of the helper), None = unprotected."""
     f = _nf(ctx, f0, inline=False)
     g = ctx.cfg(f)
     copies = f.copies(node)
@@ -194,13 +200,13 @@ def _write_protected(ctx, f0, node, depth):
             continue
         how.add(None)
     if None not in how:
-        return "; ".join(sorted(how))
+        return ["; ".join(sorted(how))]
     if depth <= 0:
         return None
     callers = helper_callers(ctx.index, f0)
     if not callers:
         return None
-    name, why = f0.name, set()
+    name, why = f0.name, []
     for ck in callers:
         if ck == f0.key:
             continue
@@ -211,8 +217,8 @@ def _write_protected(ctx, f0, node, depth):
                 r = _write_protected(ctx, cf, c, depth - 1)
                 if r is None:
                     return None
-                why.add(r)
-    return (f"private helper; every call site protected ({'; '.join(sorted(why))})") if why else None
+                why.extend(f"in the private helper {name}, called from {cf.qualname}: {x}" for x in r)
+    return why or None
 
 
 def _anc(pm, node):
@@ -270,11 +276,13 @@ def _dnf(test, pol, fn=None, depth=0):
     return [[(test, pol)]]
 
 
-def _edges_establishing(g, fn, fact):
+def _edges_establishing(g, fn, fact, known=None):
     """(full, partial): branch edges [(test node, label, succ)] on which `fact(expr, polarity)` holds in
     every disjunct of the outcome / in some disjuncts only (the latter would need path-sensitive
-    reasoning; see _unguarded)."""
+    reasoning; see _unguarded).  `known` = {atom text: bool}: alternatives of an outcome that contradict it
+    are not possible (`not block and empty()` false, with block known false, leaves `not empty()`)."""
     out, part = [], []
+    known = known or {}
     for n in g.nodes:
         if n.kind != "test":
             continue
@@ -283,6 +291,11 @@ def _edges_establishing(g, fn, fact):
             if lab is None:
                 continue
             d = _dnf(n.stmt.test, lab == "true", fn)
+            if known:
+                d = [c for c in d if not any(unparse(a) in known and known[unparse(a)] is not p for a, p in c)]
+                if not d:
+                    out.append((n.id, lab0, b))     # impossible outcome under `known`
+                    continue
             hits = [any(fact(a, p) for a, p in c) for c in d]
             if all(hits):
                 out.append((n.id, lab0, b))
@@ -738,7 +751,16 @@ def r4(ctx):
             lambda a, p, pred=pred: isinstance(a, ast.Call) and call_name(a) == f"self.{pred}" and not a.args and p is False)
         ctx.require(clear[0] or clear[1], f"Queue.{name} never branches on `not self.{pred}()`")
         waits = call_nodes(g, lambda nm, c: nm.endswith(".wait") and nm[:-5] in conds)
-        w = _unguarded(ctx, g, [g.entry] + waits, muts, clear, f"`not self.{pred}()`", no_exc)
+        # exact case split over the blocking mode (tests that merge the mode with the predicate, `if not block and
+        # self._empty(): raise`, establish the predicate on one side of the mode only)
+        w = None
+        for blk in ((True, False) if "block" in m.params else (None,)):
+            known = {} if blk is None else {"block": blk}
+            clear_k = _edges_establishing(
+                g, None,
+                lambda a, p, pred=pred: isinstance(a, ast.Call) and call_name(a) == f"self.{pred}" and not a.args and p is False,
+                known)
+            w = w or _unguarded(ctx, g, [g.entry] + waits, muts, clear_k, f"`not self.{pred}()`", no_exc)
         ctx.check(w is None, f"{m.key}:{pred[1:]}-checked-before-{mut[1:]}",
                   f"self.{mut}() is reachable without a fresh `not self.{pred}()` outcome under the lock: "
                   + ("an item is appended to a full queue (more than maxsize = pool_size idle connections)" if name == "put"
@@ -854,7 +876,7 @@ def r5(ctx):
                 missing.append(m)
         ctx.check(not missing, c.key, f"{c.name} inherits the abstract {', '.join(missing)} from Pool (NotImplementedError at checkout/checkin)",
                   "_do_get + _do_return_conn implemented", c.loc)
-    f = ctx.func(f"{IMPL}::QueuePool.checkedout")
+    f = normal_form(ctx, ctx.func(f"{IMPL}::QueuePool.checkedout"), keep=("qsize",), temps=True)
     rets = [n for n in walk_local(f.node) if isinstance(n, ast.Return) and n.value is not None]
     ctx.require(len(rets) == 1, "QueuePool.checkedout has no single return expression")
     terms = sorted(_signed_terms(rets[0].value))
@@ -900,49 +922,44 @@ def r6(ctx):
                   f"`{unparse(st).splitlines()[0]}` writes fairy_ref outside its owners "
                   f"({', '.join(sorted(k.split('::')[1] for k in FAIRY_REF_WRITERS))}): the checked-out state can be forged",
                   FAIRY_REF_WRITERS.get(owner, ""), f"{m.path}:{st.lineno}", nontrivial=False)
-    f = _nf(ctx, f"{POOL}::_ConnectionRecord.checkin", "_return_conn", alias="dotted")
+    f = _nf(ctx, f"{POOL}::_ConnectionRecord.checkin", "_return_conn")
     g = ctx.cfg(f)
     ret = calls_ending(g, "_return_conn")
     ctx.require(ret, "no _return_conn() in checkin")
-    refused = True
-    switches = []     # parameter atoms that qualify the refusal: [(atom text, polarity)] per guarding test
-    for n in ret:
-        ok = False
-        for t, pol in g.edge_guards(n):
-            if pol:
-                continue
-            atoms = test_atoms(t, True)
-            if ("self.fairy_ref is None", True) in atoms and all(
-                a == "self.fairy_ref is None" or names_in(ast.parse(a, mode="eval")) <= set(f.params) - {"self"} for a, _ in atoms
-            ):
-                ok = True
-                switches.append([(a, p) for a, p in atoms if a != "self.fairy_ref is None"])
-        refused = refused and ok
+    # A second check-in must be refused: with fairy_ref already None, _return_conn() is out of reach.  fairy_ref is
+    # None in two situations, though: after a check-in (refuse!) and before any fairy exists (the record has just
+    # been taken from the pool and get_connection() failed: it MUST go back).  Only a caller-supplied switch can
+    # tell them apart; ordinary callers do not pass it, so its default has to select "refuse".  Decided by exact
+    # case split over the boolean switch parameters (whatever the shape of the test: `a and b`, nested ifs, an
+    # early return, a flag local): which branch edges are impossible under the assumed facts, is _return_conn()
+    # still reachable?
+    import itertools
+    from ..astutil import func_defaults
+    from ._helpers_str_l import contradicted
+    defaults = func_defaults(f.node)
+    sw = [p_ for p_ in f.params if p_ != "self" and isinstance(defaults.get(p_), ast.Constant) and isinstance(defaults[p_].value, bool)]
+    ctx.require(len(sw) <= 4, f"checkin has {len(sw)} boolean switches; not understood")
+
+    def returns_record(assign):
+        facts = {"self.fairy_ref is None": True, "self.fairy_ref": False}
+        facts.update(assign)
+        r = g.reachable([g.entry], edge_ok=cut_edges(contradicted(g, facts)))
+        return any(n in r for n in ret)
+    cases = [dict(zip(sw, vals)) for vals in itertools.product((True, False), repeat=len(sw))]
+    refusing = [a for a in cases if not returns_record(a)]
+    refused = bool(refusing)
     ctx.check(refused, f.key + ":double-checkin",
               "_return_conn() is reachable although fairy_ref is already None (record checked in twice -> "
               "the same record sits in the queue twice and is handed to two holders)",
               "second check-in returns before _return_conn", f.loc)
     if refused:
-        # fairy_ref is None in two situations: after a check-in (refuse!) and before any fairy exists (the
-        # record has just been taken from the pool and get_connection() failed: it MUST go back).  Only a
-        # caller-supplied switch can tell them apart; ordinary callers do not pass it, so its default has to
-        # select "refuse".
-        from ..astutil import func_defaults
-        defaults = func_defaults(f.node)
-        bad_default, n_sw = [], 0
-        for sw in switches:
-            for a, p in sw:
-                n_sw += 1
-                ctx.require(a in f.params, f"checkin: refusal of a double check-in is qualified by `{a}`, not a plain parameter; not understood")
-                dv = defaults.get(a)
-                ctx.require(isinstance(dv, ast.Constant), f"checkin: parameter `{a}` has no constant default")
-                if bool(dv.value) is not p:
-                    bad_default.append(f"`{a}` defaults to {dv.value!r}")
-        ctx.check(not bad_default, f.key + ":double-checkin-refused-by-default",
-                  f"the refusal of a second check-in is switched off for ordinary callers ({'; '.join(bad_default)}): "
+        dflt = {p_: bool(defaults[p_].value) for p_ in sw}
+        ctx.check(dflt in refusing, f.key + ":double-checkin-refused-by-default",
+                  f"the refusal of a second check-in is switched off for ordinary callers "
+                  f"({'; '.join(f'`{a}` defaults to {v!r}' for a, v in dflt.items())}): "
                   f"_finalize_fairy / fairy close call checkin() without arguments, so a record is returned twice",
                   "plain checkin() refuses when fairy_ref is None", f.loc)
-        ctx.check(n_sw >= 1 and all(sw for sw in switches), f.key + ":pre-fairy-checkin-not-refused",
+        ctx.check(bool(sw) and len(refusing) < len(cases), f.key + ":pre-fairy-checkin-not-refused",
                   "check-in is refused whenever fairy_ref is None, also for a record whose fairy was never created "
                   "(checkout failed in get_connection(): fairy_ref is still None): the record is never returned, the "
                   "pool loses the slot", "a parameter distinguishes 'never had a fairy' from 'already checked in'", f.loc)
@@ -1316,3 +1333,102 @@ R.mutant("benign-inc-overflow-early-return-style", IMPL,
 R.mutant("seedC29-1-do-get-undo-handler-narrowed-to-exception", IMPL,
          sub("            except:\n                with util.safe_reraise():\n                    self._dec_overflow()\n                raise\n",
              "            except Exception:\n                with util.safe_reraise():\n                    self._dec_overflow()\n                raise\n"), "C25-R2")
+
+# ---------------------------------------------------------------------- rob-A: behaviour-preserving refactorings
+# (families of the stored benign/rfA_8, rfA_9 + variants; the rules analyse the normal form, see _helpers_rob_a)
+_DEC = "        if self._max_overflow == -1:\n            self._overflow -= 1\n            return True\n"
+R.mutant("benign-rob-overflow-unlimited-flag-early-return", IMPL,
+         chain(sub("        if self._max_overflow == -1:\n            self._overflow += 1\n            return True\n" + _INC,
+                   "        unlimited = self._max_overflow == -1\n        if unlimited:\n            self._overflow += 1\n            return True\n"
+                   "        with self._overflow_lock:\n            if self._overflow >= self._max_overflow:\n                return False\n"
+                   "            self._overflow += 1\n            return True\n"),
+               sub(_DEC, "        unlimited = self._max_overflow == -1\n        if unlimited:\n            self._overflow -= 1\n            return True\n")), None)
+# ... a snapshot of the shared counter taken outside the lock is not an alias of the comparison
+R.mutant("rob-inc-overflow-room-snapshot-outside-lock", IMPL,
+         sub(_INC, "        room = self._overflow < self._max_overflow\n        with self._overflow_lock:\n            if room:\n"
+                   "                self._overflow += 1\n                return True\n            else:\n                return False\n"), "C25-R1")
+_TAKE = "    def _take_slot(self) -> bool:\n        self._overflow += 1\n        return True\n\n"
+_INC_ALL = "        if self._max_overflow == -1:\n            self._overflow += 1\n            return True\n" + _INC
+_INC_HELPER = ("        if self._max_overflow == -1:\n            return self._take_slot()\n        with self._overflow_lock:\n"
+               "            if self._overflow < self._max_overflow:\n                return self._take_slot()\n            else:\n                return False\n")
+R.mutant("benign-rob-inc-overflow-increment-helper", IMPL,
+         chain(sub(_INC_ALL, _INC_HELPER), sub("    def _inc_overflow(self) -> bool:\n", _TAKE + "    def _inc_overflow(self) -> bool:\n")), None)
+R.mutant("rob-increment-helper-also-called-unlocked", IMPL,
+         chain(sub(_INC_ALL, _INC_HELPER), sub("    def _inc_overflow(self) -> bool:\n", _TAKE + "    def _inc_overflow(self) -> bool:\n"),
+               sub("        use_overflow = self._max_overflow > -1\n", "        use_overflow = self._max_overflow > -1\n        if self._pre_ping:\n            self._take_slot()\n")), "C25-R1")
+_GOT = ("        if self._inc_overflow():\n            try:\n                return self._create_connection()\n            except:\n"
+        "                with util.safe_reraise():\n                    self._dec_overflow()\n                raise\n        else:\n            return self._do_get()\n")
+R.mutant("benign-rob-do-get-slot-flag-local", IMPL,
+         sub(_GOT, "        got_slot = self._inc_overflow()\n        if got_slot:\n            try:\n                return self._create_connection()\n            except:\n"
+                   "                with util.safe_reraise():\n                    self._dec_overflow()\n                raise\n        else:\n            return self._do_get()\n"), None)
+R.mutant("benign-rob-do-get-no-slot-early-return", IMPL,
+         sub(_GOT, "        if not self._inc_overflow():\n            return self._do_get()\n        try:\n            return self._create_connection()\n        except:\n"
+                   "            with util.safe_reraise():\n                self._dec_overflow()\n            raise\n"), None)
+R.mutant("benign-rob-do-get-create-helper", IMPL,
+         chain(sub(_GOT, "        if self._inc_overflow():\n            return self._create_overflow_connection()\n        else:\n            return self._do_get()\n"),
+               sub("    def _do_get(self) -> ConnectionPoolEntry:\n        use_overflow",
+                   "    def _create_overflow_connection(self) -> ConnectionPoolEntry:\n        try:\n            return self._create_connection()\n        except:\n"
+                   "            with util.safe_reraise():\n                self._dec_overflow()\n            raise\n\n"
+                   "    def _do_get(self) -> ConnectionPoolEntry:\n        use_overflow")), None)
+R.mutant("rob-do-get-create-helper-forgets-dec", IMPL,
+         chain(sub(_GOT, "        if self._inc_overflow():\n            return self._create_overflow_connection()\n        else:\n            return self._do_get()\n"),
+               sub("    def _do_get(self) -> ConnectionPoolEntry:\n        use_overflow",
+                   "    def _create_overflow_connection(self) -> ConnectionPoolEntry:\n        try:\n            return self._create_connection()\n        except Exception:\n"
+                   "            with util.safe_reraise():\n                self._dec_overflow()\n            raise\n\n"
+                   "    def _do_get(self) -> ConnectionPoolEntry:\n        use_overflow")), "C25-R2")
+R.mutant("benign-rob-do-get-queue-alias", IMPL,
+         sub("        try:\n            return self._pool.get(wait, self._timeout)\n", "        idle = self._pool\n        try:\n            return idle.get(wait, self._timeout)\n"), None)
+R.mutant("benign-rob-return-conn-discard-helper", IMPL,
+         chain(sub("        except sqla_queue.Full:\n            try:\n                record.close()\n            finally:\n                self._dec_overflow()\n",
+                   "        except sqla_queue.Full:\n            self._discard_overflow(record)\n"),
+               sub("    def _do_get(self) -> ConnectionPoolEntry:\n        use_overflow",
+                   "    def _discard_overflow(self, rec: ConnectionPoolEntry) -> None:\n        try:\n            rec.close()\n        finally:\n"
+                   "            self._dec_overflow()\n\n    def _do_get(self) -> ConnectionPoolEntry:\n        use_overflow")), None)
+_GETWAIT = ("            if not block:\n                if self._empty():\n                    raise Empty\n            elif timeout is None:\n"
+            "                while self._empty():\n                    self.not_empty.wait()\n            else:\n                if timeout < 0:\n"
+            "                    raise ValueError(\"'timeout' must be a positive number\")\n                endtime = _time() + timeout\n"
+            "                while self._empty():\n                    remaining = endtime - _time()\n                    if remaining <= 0.0:\n"
+            "                        raise Empty\n                    self.not_empty.wait(remaining)\n")
+_GETNW = "    def get_nowait(self) -> _T:\n        \"\"\"Remove and return an item from the queue without blocking.\n\n        Only get an item if one is immediately available. Otherwise\n"
+R.mutant("benign-rob-queue-get-wait-helper", QUEUE,
+         chain(sub(_GETWAIT, "            self._wait_for_item(block, timeout)\n"),
+               sub(_GETNW,
+                   "    def _wait_for_item(self, block: bool, timeout: Optional[float]) -> None:\n"
+                   + _GETWAIT.replace("\n            ", "\n        ").replace("            if not block", "        if not block", 1)
+                   .replace("remaining", "time_left").replace("endtime", "deadline") + "\n" + _GETNW)), None)
+# ... the same helper called before the lock is taken is seen through
+R.mutant("rob-queue-get-wait-helper-outside-lock", QUEUE,
+         chain(sub("        with self.not_empty:\n" + _GETWAIT, "        self._wait_for_item(block, timeout)\n        with self.not_empty:\n"),
+               sub(_GETNW,
+                   "    def _wait_for_item(self, block: bool, timeout: Optional[float]) -> None:\n"
+                   + _GETWAIT.replace("\n            ", "\n        ").replace("            if not block", "        if not block", 1) + "\n" + _GETNW)), "C25-R3")
+R.mutant("benign-rob-queue-put-condition-alias", QUEUE,
+         chain(sub("        with self.not_full:\n            if not block:\n                if self._full():\n", "        room = self.not_full\n        with room:\n            if not block:\n                if self._full():\n"),
+               sub("                while self._full():\n                    self.not_full.wait()\n", "                while self._full():\n                    room.wait()\n")), None)
+R.mutant("benign-rob-queue-get-nonblocking-early-raise", QUEUE,
+         sub("            if not block:\n                if self._empty():\n                    raise Empty\n            elif timeout is None:\n                while self._empty():\n                    self.not_empty.wait()\n",
+             "            if not block and self._empty():\n                raise Empty\n            if not block:\n                pass\n            elif timeout is None:\n                while self._empty():\n                    self.not_empty.wait()\n"), None)
+_REFUSE = (
+    "        if self.fairy_ref is None and _fairy_was_created:\n"
+    "            # _fairy_was_created is False for the initial get connection phase;\n"
+    "            # meaning there was no _ConnectionFairy and we must unconditionally\n"
+    "            # do a checkin.\n"
+    "            #\n"
+    "            # otherwise, if fairy_was_created==True, if fairy_ref is None here\n"
+    "            # that means we were checked in already, so this looks like\n"
+    "            # a double checkin.\n"
+    "            util.warn(\"Double checkin attempted on %s\" % self)\n"
+    "            return\n"
+)
+R.mutant("benign-rob-checkin-refusal-nested-ifs", POOL,
+         sub(_REFUSE, "        if self.fairy_ref is None:\n            if _fairy_was_created:\n"
+                      "                util.warn(\"Double checkin attempted on %s\" % self)\n                return\n"), None)
+R.mutant("benign-rob-checkin-refusal-flag-local", POOL,
+         sub(_REFUSE, "        double_checkin = _fairy_was_created and not self.fairy_ref\n        if double_checkin:\n"
+                      "            util.warn(\"Double checkin attempted on %s\" % self)\n            return\n"), None)
+R.mutant("rob-checkin-refusal-nested-ifs-wrong-switch-sense", POOL,
+         sub(_REFUSE, "        if self.fairy_ref is None:\n            if not _fairy_was_created:\n"
+                      "                util.warn(\"Double checkin attempted on %s\" % self)\n                return\n"), "C25-R6")
+R.mutant("benign-rob-checkedout-through-locals", IMPL,
+         sub("        return self._pool.maxsize - self._pool.qsize() + self._overflow\n",
+             "        queue = self._pool\n        idle = queue.qsize()\n        return queue.maxsize - idle + self._overflow\n"), None)
